@@ -2,7 +2,7 @@ from .core import BASE_TRUST
 
 META = {
     "category": "proof",
-    "text": "Lean 4 theorems over an interpreter written in the shape of csvq's Processor / ReferenceScope / UserDefinedFunction code (block stack, executeChild, While, flow enum, returnVal) and a denotational reference semantics, for all programs, all nesting depths and all fuel: refinement, block-stack balance, locality of declarations, shadowing, persistence of outer assignments, independence of call frames, BREAK/CONTINUE/RETURN/EXIT; the language includes the cursor loop WHILE [VAR] @x IN cursor (the cursor abstracted to the list of its remaining rows) and statements that reach the current block indirectly (SOURCE file / EXECUTE 'text' / EXECUTE prepared = the same statements in place); model tied to /repo by running generated procedures through the real Processor on every run, plus laws checked on the implementation alone (variables, cursors, temporary tables, functions declared in blocks; concurrent invocations; after EVERY generated program, in the same session, a recursive probe with a known trace and an inspection of blocks taken from csvq's pool)",
+    "text": "Lean 4 theorems over an interpreter written in the shape of csvq's Processor / ReferenceScope / UserDefinedFunction code (block stack, executeChild, While, flow enum, returnVal) and a denotational reference semantics, for all programs, all nesting depths and all fuel: refinement, block-stack balance, locality of declarations, shadowing, persistence of outer assignments, independence of call frames, BREAK/CONTINUE/RETURN/EXIT; the language includes the cursor loop WHILE [VAR] @x IN cursor (the cursor abstracted to the list of its remaining rows) and statements that reach the current block indirectly (SOURCE file / EXECUTE 'text' / EXECUTE prepared = the same statements in place) and temporary tables as variables holding their rows (DECLARE VIEW refuses a name visible in any block; INSERT / DELETE from any depth = assignment to the innermost binding); model tied to /repo by running generated procedures through the real Processor on every run, plus laws checked on the implementation alone (variables, cursors, temporary tables, functions declared in blocks; concurrent invocations; after EVERY generated program, in the same session, a recursive probe with a known trace and an inspection of blocks taken from csvq's pool)",
     "design_ref": "DESIGN.md section 5, C15",
     "note": "trusted: Lean kernel (axioms propext, Classical.choice, Quot.sound only), harness + driver, sync.Pool (a released block is modelled as gone), csvq's parser for the generated program text",
     "technique": "Lean 4 machine-checked proof over a hand-written model + differential correspondence with the Go implementation",
@@ -16,6 +16,7 @@ def run(run):
         "sync.Pool hands out cleared blocks: a block that was released is modelled as dropped, a block that is taken as empty (the discipline get/clear/put is what block_stack_balanced and the differential run check)",
         "termination is not claimed: every theorem is stated for all fuel (the fuel bounds the depth of the evaluation tree); generated programs are run with fuel 200000 and never exhaust it",
         "WHILE @x IN cursor is modelled over the list of the cursor's remaining rows (one column); cursor declaration, OPEN, cursor lookup and their errors are not in the model (cursor positions are C16), generated cursors are always declared and opened right in front of their loop and used once",
+        "a temporary table is modelled as a variable holding its number of rows; 'file t0 does not exist' (INSERT/DELETE/SELECT on an undeclared table) and 'view t0 is undeclared' (DISPOSE VIEW) are compared with the model's 'undeclared variable'; row contents, UPDATE, REPLACE and ALTER are covered by implementation-only laws",
         "the parser only admits BREAK/CONTINUE inside loops, RETURN inside functions and EXIT outside functions; the theorems cover all syntax trees, the correspondence run only the ones csvq's parser accepts",
     ]
     run.obligations_for(["Csvq.Props.C15"])
@@ -25,7 +26,7 @@ def run(run):
             run.stream("c15", 100000, seed_offset=k)
     return run.finish(
         level="proof",
-        rule="random procedures over VAR/assign/DISPOSE/PRINT/IF-ELSEIF-ELSE (also written as CASE WHEN)/WHILE/WHILE [VAR] @x IN cursor (cursor over a small temporary table, declared and opened in front of the loop)/statements executed through SOURCE of a file, EXECUTE of a (nested-quoted) string or PREPARE + EXECUTE, any of them inside any block/BREAK/CONTINUE/EXIT/RETURN/DECLARE FUNCTION (optional parameters)/DISPOSE FUNCTION and (recursive) calls, nesting <= 6, variable and function names from pools of 4, loops bounded by private counters, calls by a decreasing budget argument; each run through the real Processor (PRINT lines, flow, error number, variables and functions left in the session scope) and through the Lean model; laws on the implementation alone for variables, cursors, temporary tables, functions and aggregates declared directly or through SOURCE / EXECUTE 'text' / nested EXECUTE / PREPARE+EXECUTE at random depth inside IF/ELSE/ELSEIF/WHILE/function bodies, shadowing, outer assignment, late declarations, concurrent invocations; after every program the pool probe (law call_frames_independent_after_history: recursion 6 deep with shadowing WHILE/IF blocks, 19 live scopes, fixed trace) and law pool_no_alias (48 blocks taken from blockScopePool must be empty and pairwise distinct); one program in five places BREAK/CONTINUE/EXIT/RETURN where the grammar forbids them (patched into the syntax tree); non-trivial = the program has a block construct and printed something or ended other than normally; distinct = (statement kinds, outcome, depth, number of printed lines, shadowing, final variables) signature",
+        rule="random procedures over VAR/assign/DISPOSE/PRINT/IF-ELSEIF-ELSE (also written as CASE WHEN)/WHILE/WHILE [VAR] @x IN cursor (cursor over a small temporary table, declared and opened in front of the loop)/statements executed through SOURCE of a file, EXECUTE of a (nested-quoted) string or PREPARE + EXECUTE, any of them inside any block/temporary tables DECLARE VIEW, INSERT, DELETE, DISPOSE VIEW, (SELECT COUNT(*) …) declared in intermediate blocks and changed from deeper ones/BREAK/CONTINUE/EXIT/RETURN/DECLARE FUNCTION (optional parameters)/DISPOSE FUNCTION and (recursive) calls, nesting <= 6, variable and function names from pools of 4, loops bounded by private counters, calls by a decreasing budget argument; each run through the real Processor (PRINT lines, flow, error number, variables and functions left in the session scope) and through the Lean model; laws on the implementation alone for variables, cursors, temporary tables, functions and aggregates declared directly or through SOURCE / EXECUTE 'text' / nested EXECUTE / PREPARE+EXECUTE at random depth inside IF/ELSE/ELSEIF/WHILE/function bodies, shadowing, outer assignment, late declarations, concurrent invocations; inner_change_reaches_declaring_block_*: an object with state (table rows via INSERT/DELETE/UPDATE/REPLACE, table columns via ALTER ADD/DROP/RENAME, cursor position and OPEN/CLOSE, variable, function) declared 1-3 blocks below the session scope, changed 1-3 blocks further in (also through SOURCE/EXECUTE), read back in the declaring block; after every program the pool probe (law call_frames_independent_after_history: recursion 6 deep with shadowing WHILE/IF blocks, 19 live scopes, fixed trace) and law pool_no_alias (48 blocks taken from blockScopePool must be empty and pairwise distinct); one program in five places BREAK/CONTINUE/EXIT/RETURN where the grammar forbids them (patched into the syntax tree); non-trivial = the program has a block construct and printed something or ended other than normally; distinct = (statement kinds, outcome, depth, number of printed lines, shadowing, final variables) signature",
         trusted_base=BASE_TRUST + ["sync.Pool semantics (Get returns a block nobody else holds); csvq's parser and PRINT formatting of integers, NULL and ternaries"],
         checker_cmd="cd /verif/lean && lake build Csvq.Props.C15 && lake env lean <#print axioms for every theorem>",
     )
